@@ -40,6 +40,16 @@ CHECKS = {
         text="Recorded histories (<= ~40 calls: update_routes, set_mask, set_base_levels in permuted insertion orders, exponent changes, accumulate, basins, repeated calls, revisits of earlier inputs, then a fresh object with the same inputs) are validated by TLC against a specification in which the observation (returned elevation, receivers, counts, distance/weight bit patterns as ranks, donors, dfs/bfs/levels, accumulation, basins) is a function of (operators+parameters, elevation, mask, base-level set): any two observations with equal inputs inside one history must be identical, and the argument array must be bit-identical after the call.",
         note="Bit-for-bit equality is decided on ulp-ranks (injective on bit patterns up to the sign of zero). Histories are sampled; the PFloodTwice model covers all tie-break choices of the flood on a 2x3 raster.",
         ref="5-C09"),
+    "C10": dict(
+        technique="TLA+ ParDispatch L2 model checked over all interleavings + FlowGraph memo (thread counts are not part of the specification's inputs) validated by TLC on recorded parallel/sequential histories + kernel call logs + ThreadSanitizer observer",
+        text="MC: ParDispatch (per-node fill/read/write of the neighbour scratch over Blocks-partitioned ranges, level loop with barrier) keeps result = sequential result in every interleaving; negative controls (shared scratch, no barrier) are rejected. Binding: the same inputs go through a sequential graph and graphs using 2..16 threads (cached and cache-less rasters, profiles, meshes, up to 15x15; repeated updates pausing/resuming/resizing the pool); TLC rejects any difference in receivers, distance/weight bit patterns, traversal orders, accumulation, basins. Kernels log every call with a global sequence counter: exactly once per node, every receiver's call ended before the node's began, output equal to the value TLC computes from the recorded graph and to the sequential run, unsupported parallel order refused. The tsan flavour of the same driver observes the happens-before relation on cache-less rasters and meshes.",
+        note="Schedules of the real threads are whatever the OS produces (free-running) in this check; steered schedules of the pool are in C11. ThreadSanitizer is the trusted observer for data races. Grids <= 15x15, thread counts 2..16.",
+        ref="5-C10"),
+    "C11": dict(
+        technique="TLA+ ThreadPool L2 model (one action per atomic access / mutex / condvar operation / spin iteration, happens-before version ghosts) model-checked exhaustively incl. liveness; Blocks specification enumerated and replayed; real pool run under a controlled scheduler through guarded hooks and every recorded schedule validated by TLC against the model (PoolTrace); ThreadSanitizer observer",
+        text="MC: ExactlyOnce, NoDataRace, MutexOK, TypeOK and Termination (weak fairness per thread) hold on all interleavings of caller programs in the library's call grammar (2 workers quick; 3-4 workers, resizes, several runs per cycle thorough); the models with relaxed flag accesses / unlocked notify are rejected (negative controls: data race, lost wake-up). Blocks: PartitionOK on every (first,last,n,min) tuple up to (16,6,6) quick / (40,12,12) thorough, each replayed through the real blocks class. Binding: 150+ (3000 thorough) random programs x PCT schedules executed by the real pool with one thread running between two hook points; TLC accepts the trace only if every granted step is the model action at that program point (lock acquisitions, flag stores/loads with the scanned index, waits, notifies, joins), callbacks run exactly the Blocks-specification ranges once, run_blocks returns only when the model is back at idle, and no schedule hangs (steered lost-wake-up schedules included).",
+        note="The C++ memory model is represented by release/acquire version ghosts (no stale reads of relaxed atomics, no out-of-thin-air); under the controlled scheduler executions are sequentially consistent, so the data-race clause on the real code is observed by ThreadSanitizer on free-running executions of the same programs (trusted observer). Spurious condition-variable wake-ups are outside the model and make a run inconclusive. Pool sizes <= 4.",
+        ref="5-C11"),
     "C16": dict(
         technique="TLA+ FlowGraph!SnapGraph/SnapElev/SnapMutate actions: snapshot state looked up in the memo of the prefix graph; TLC validates recorded histories",
         text="For sequences with graph/elevation snapshots at several positions (single and multiple direction states), the harness also runs the prefix graphs on the same inputs; TLC checks that each snapshot's receivers, counts, distance and weight bit patterns and donors equal the prefix graph's, that its own dfs/bfs/levels/donor tables satisfy C06, that accumulate and basins on the snapshot equal those on the prefix graph, that elevation snapshots equal the elevation at that point, that a later update with another input replaces (and only replaces) the snapshot, and that update_routes/set_mask/set_base_levels on a snapshot are refused.",
